@@ -46,7 +46,7 @@ def gen_hostile(rng, dtype, n):
         scale = min(scale, 8000.0 / shape)
         scale = max(scale, 1.5 / shape)
     x = rng.gamma(shape, scale, n)
-    nodata = float(rng.choice([-9999, -1, 32767, -32768]))
+    nodata = float(rng.choice([-9999, -1, 32767, -32768, 0, 0]))  # 0 as fill value: a zero cell is then a missing cell, not a dry one
     m = float(np.mean(x))
     k = int(rng.integers(1, max(2, n // 4)))
     idx = rng.choice(n, k, replace=False)
